@@ -2,7 +2,7 @@
 from .util import make_program, evaluate_outcome
 
 
-def string_literal(text, bytes, expected, tail=None):
+def string_literal(text, bytes, expected, tail=None, may_error=False):
     src = "".join(chr(c) for c in text)
     if tail:
         # `<literal> + <second literal>`: the first literal must be its own token (value = first + b"y"/"y")
@@ -13,6 +13,8 @@ def string_literal(text, bytes, expected, tail=None):
             except Exception as ex:  # noqa: BLE001
                 return False, f"`{src + tail}` under {runner}: {type(ex).__name__}: {ex}"
             got = list(v) if (bytes and kd == "value") else ([ord(c) for c in v] if kd == "value" else None)
+            if may_error and kd == "error":
+                continue
             if got != list(expected) + [ord("y")]:
                 return False, f"`{src + tail}` under {runner}: {kd} {v!r:.80}; expected the first literal's value followed by 'y'"
     for runner in ("interp", "compiled"):
@@ -21,6 +23,8 @@ def string_literal(text, bytes, expected, tail=None):
         except Exception as ex:  # noqa: BLE001
             return False, f"literal {src!r} under {runner}: {type(ex).__name__}: {ex}"
         kd, v = evaluate_outcome(lambda: prog.evaluate({}))
+        if may_error and kd == "error":
+            continue
         if kd != "value":
             return False, f"literal {src!r} under {runner}: {kd} {v!r}"
         got = list(v) if bytes else [ord(c) for c in v]
